@@ -507,6 +507,10 @@ structure RInv (programs : List (List Op)) (log : List (Ev σ Op)) (s : Sys σ O
     ∃ l1 l2, log = l1 ++ [Ev.env (.cancel t)] ++ l2 ∧ ∀ ev ∈ l2, ¬ ev.isStartOf t
   /-- every segment in the log ran the operation its thread's program has at that program counter -/
   segs : ∀ t pc op first c pre out, Ev.seg t pc op first c pre out ∈ log → ∃ p, programs[t]? = some p ∧ p[pc]? = some op
+  /-- the segments of a thread in the log belong to operations it has returned from, or to its current
+      operation if it is inside one (parked or woken) -/
+  fresh : ∀ (t : Nat) (th : Th Op), s.ths[t]? = some th → ∀ pc op first c pre out, Ev.seg t pc op first c pre out ∈ log →
+    pc < th.pc ∨ (pc = th.pc ∧ (th.st = .woken ∨ ∃ cnd, th.st = .parked cnd))
 
 theorem RInv.init (i : σ) (programs : List (List Op)) : RInv programs ([] : List (Ev σ Op)) (initSys i programs) := by
   have hget : ∀ (t : Nat) (th : Th Op), (initSys i programs).ths[t]? = some th →
@@ -516,7 +520,7 @@ theorem RInv.init (i : σ) (programs : List (List Op)) : RInv programs ([] : Lis
     cases hp : programs[t]? with
     | none => simp [hp] at h
     | some p => simp only [hp, Option.map_some, Option.some.injEq] at h; exact ⟨p, rfl, h.symm⟩
-  refine ⟨?_, by simp [initSys], ?_, ?_, ?_, ?_, ?_, ?_⟩
+  refine ⟨?_, by simp [initSys], ?_, ?_, ?_, ?_, ?_, ?_, ?_⟩
   · intro p hp; simp [initSys] at hp
   · intro t th h; obtain ⟨p, h1, rfl⟩ := hget t th h; exact h1
   · intro t th h; obtain ⟨p, h1, rfl⟩ := hget t th h; simp [Conc.retOps]
@@ -525,6 +529,7 @@ theorem RInv.init (i : σ) (programs : List (List Op)) : RInv programs ([] : Lis
     by_cases hp : p.isEmpty = true <;> simp [hp] at hst
   · intro t th h hc; obtain ⟨p, h1, rfl⟩ := hget t th h; simp at hc
   · intro t pc op first c pre out h; simp at h
+  · intro t th _ pc op first c pre out h; simp at h
 
 theorem retOf_append (log : List (Ev σ Op)) (ev : Ev σ Op) (t : Nat) :
     (log ++ [ev]).filterMap (Ev.retOf t) = log.filterMap (Ev.retOf t) ++ (Ev.retOf t ev).toList := by
@@ -549,7 +554,7 @@ theorem RInv.step {sub : Subject σ Op} {programs : List (List Op)} {log : List 
       exact ⟨thi, hthi, g2⟩
     have hret_ne : ∀ i, i ≠ t → Ev.retOf i (Ev.seg t th.pc op first (if first then false else th.cancelled) s.subj o) = none := by
       intro i hne; simp only [Ev.retOf]; rw [if_neg (fun e => hne e.symm)]
-    refine ⟨hG', by rw [hlen', hI.len], ?_, ?_, ?_, ?_, ?_, ?_⟩
+    refine ⟨hG', by rw [hlen', hI.len], ?_, ?_, ?_, ?_, ?_, ?_, ?_⟩
     · intro i thi' hi
       by_cases hne : i = t
       · subst hne; rw [hth'] at hi; cases hi; rw [hops]; exact hI.ops _ th hth
@@ -644,6 +649,32 @@ theorem RInv.step {sub : Subject σ Op} {programs : List (List Op)} {log : List 
       · exact hI.segs _ _ _ _ _ _ _ hmem
       · cases hmem
         exact ⟨th.ops, hI.ops t th hth, hop⟩
+    · intro i thi' hi pc2 op2 first2 c2 pre2 out2 hmem
+      simp only [List.mem_append, List.mem_singleton] at hmem
+      by_cases hne : i = t
+      · subst hne; rw [hth'] at hi; cases hi
+        have hold : pc2 ≤ th.pc := by
+          rcases hmem with hmem | hmem
+          · rcases hI.fresh i th hth _ _ _ _ _ _ hmem with h1 | ⟨h1, _⟩ <;> omega
+          · cases hmem; exact Nat.le_refl _
+        cases hf : o.fin with
+        | ret r => rw [hf] at hfin; left; rw [hfin.1]; omega
+        | park cnd =>
+          rw [hf] at hfin
+          rw [hfin.1, hfin.2]
+          rcases Nat.lt_or_ge pc2 th.pc with h1 | h1
+          · exact Or.inl h1
+          · exact Or.inr ⟨by omega, Or.inr ⟨cnd, rfl⟩⟩
+      · obtain ⟨thi, g1, g2⟩ := hback i thi' hi hne
+        rcases hmem with hmem | hmem
+        · rw [g2.2.1]
+          rcases hI.fresh i thi g1 _ _ _ _ _ _ hmem with h1 | ⟨h1, h2⟩
+          · exact Or.inl h1
+          · refine Or.inr ⟨h1, ?_⟩
+            rcases g2.2.2.2 with e | ⟨e, _⟩
+            · rw [e]; exact h2
+            · exact Or.inl e
+        · cases hmem; exact absurd rfl hne
   | env t ha hev hsubj hths =>
     rw [hev]
     have hback : ∀ i thi', s'.ths[i]? = some thi' → ∃ thi, s.ths[i]? = some thi ∧ thi'.ops = thi.ops ∧ thi'.pc = thi.pc ∧
@@ -657,7 +688,7 @@ theorem RInv.step {sub : Subject σ Op} {programs : List (List Op)} {log : List 
       rw [hi] at g1; cases g1
       exact ⟨thi, hthi, g2⟩
     have hret : ∀ i, Ev.retOf i (Ev.env a : Ev σ Op) = none := fun i => rfl
-    refine ⟨hG', by rw [hlen', hI.len], ?_, ?_, ?_, ?_, ?_, ?_⟩
+    refine ⟨hG', by rw [hlen', hI.len], ?_, ?_, ?_, ?_, ?_, ?_, ?_⟩
     · intro i thi' hi
       obtain ⟨thi, g1, g2, -⟩ := hback i thi' hi
       rw [g2]; exact hI.ops i thi g1
@@ -694,6 +725,18 @@ theorem RInv.step {sub : Subject σ Op} {programs : List (List Op)} {log : List 
       simp only [List.mem_append, List.mem_singleton] at hmem
       rcases hmem with hmem | hmem
       · exact hI.segs _ _ _ _ _ _ _ hmem
+      · cases hmem
+    · intro i thi' hi pc2 op2 first2 c2 pre2 out2 hmem
+      simp only [List.mem_append, List.mem_singleton] at hmem
+      obtain ⟨thi, g1, g2, g3, g4, -⟩ := hback i thi' hi
+      rcases hmem with hmem | hmem
+      · rw [g3]
+        rcases hI.fresh i thi g1 _ _ _ _ _ _ hmem with h1 | ⟨h1, h2⟩
+        · exact Or.inl h1
+        · refine Or.inr ⟨h1, ?_⟩
+          rcases g4 with e | ⟨e, _⟩
+          · rw [e]; exact h2
+          · exact Or.inl e
       · cases hmem
 
 /-- the bookkeeping invariant holds along every run from an initial system -/
@@ -801,6 +844,96 @@ theorem Reach'.induction {sub : Subject σ Op} {i : σ} {programs : List (List O
       exact henv _ _ _ ih
 
 
+/-! ### positions in the log: invocation, linearization point, cancellation -/
+
+theorem Reach'.snoc_inv {sub : Subject σ Op} {s0 s : Sys σ Op} {l : List (Ev σ Op)} {ev : Ev σ Op}
+    (h : Reach' sub s0 (l ++ [ev]) s) :
+    ∃ s1 a obs, Reach' sub s0 l s1 ∧ a ∈ enabled s1 true ∧ Conc.step sub s1 a = some (s, obs) ∧ ev = evOf sub s1 a := by
+  generalize hl : l ++ [ev] = log at h
+  cases h with
+  | init => simp at hl
+  | @step log' s1 a s' obs hr hen hs =>
+    have := List.append_inj' hl rfl
+    obtain ⟨e1, e2⟩ := this
+    subst e1
+    simp only [List.cons.injEq, and_true] at e2
+    exact ⟨s1, a, obs, hr, hen, hs, e2⟩
+
+/-- the action behind an event in the middle of a log -/
+theorem Reach'.split {sub : Subject σ Op} {s0 s : Sys σ Op} {l1 l2 : List (Ev σ Op)} {ev : Ev σ Op}
+    (h : Reach' sub s0 (l1 ++ ev :: l2) s) :
+    ∃ s1 a s2 obs, Reach' sub s0 l1 s1 ∧ a ∈ enabled s1 true ∧ Conc.step sub s1 a = some (s2, obs) ∧ ev = evOf sub s1 a := by
+  have : l1 ++ ev :: l2 = (l1 ++ [ev]) ++ l2 := by simp
+  rw [this] at h
+  obtain ⟨s2, h2⟩ := h.prefix
+  obtain ⟨s1, a, obs, g1, g2, g3, g4⟩ := h2.snoc_inv
+  exact ⟨s1, a, s2, obs, g1, g2, g3, g4⟩
+
+/-- **The linearization point lies inside the operation.** Every segment of an operation instance
+    (thread `t`, program counter `pc`) is its invocation segment or is preceded in the log by it. -/
+theorem Reach'.invocation_before {sub : Subject σ Op} {i : σ} {programs : List (List Op)} {s : Sys σ Op}
+    {l1 l2 : List (Ev σ Op)} {t pc : Nat} {op : Op} {first c : Bool} {pre : σ} {out : SegOut σ}
+    (h : Reach' sub (initSys i programs) (l1 ++ Ev.seg t pc op first c pre out :: l2) s) :
+    first = true ∨ ∃ c' pre' out', Ev.seg t pc op true c' pre' out' ∈ l1 := by
+  obtain ⟨s1, a, s2, obs, hr, hen, hs, hev⟩ := h.split
+  have hI := hr.rinv
+  obtain ⟨-, -, hinfo⟩ := step_info hI.parkedOK hen hs
+  cases hinfo with
+  | seg t' th th' op' first' o ha hth hop hst ho hev' hsubj hth' hops hcanc hfin hoth =>
+    rw [hev'] at hev
+    cases hev
+    cases first with
+    | true => exact Or.inl rfl
+    | false =>
+      right
+      have hw : th.st = .woken := by simpa using hst
+      obtain ⟨op2, e1, e2, -⟩ := hI.inflight t th hth (Or.inl hw)
+      rw [hop] at e1; cases e1
+      exact e2
+  | env t' ha hev' hsubj hths => rw [hev'] at hev; cases hev
+
+/-- **An operation's invocation is the first thing that happens in it**: no segment of the same thread at
+    the same or a later program counter precedes the invocation segment. -/
+theorem Reach'.invocation_first {sub : Subject σ Op} {i : σ} {programs : List (List Op)} {s : Sys σ Op}
+    {l1 l2 : List (Ev σ Op)} {t pc : Nat} {op : Op} {c : Bool} {pre : σ} {out : SegOut σ}
+    (h : Reach' sub (initSys i programs) (l1 ++ Ev.seg t pc op true c pre out :: l2) s) :
+    ∀ pc' op' f' c' pre' out', Ev.seg t pc' op' f' c' pre' out' ∈ l1 → pc' < pc := by
+  obtain ⟨s1, a, s2, obs, hr, hen, hs, hev⟩ := h.split
+  have hI := hr.rinv
+  obtain ⟨-, -, hinfo⟩ := step_info hI.parkedOK hen hs
+  cases hinfo with
+  | seg t' th th' op' first' o ha hth hop hst ho hev' hsubj hth' hops hcanc hfin hoth =>
+    rw [hev'] at hev
+    cases hev
+    intro pc' op2 f' c' pre' out' hmem
+    have hidle : th.st = .idle := by simpa using hst
+    rcases hI.fresh t th hth _ _ _ _ _ _ hmem with h1 | ⟨_, h2⟩
+    · exact h1
+    · rw [hidle] at h2
+      rcases h2 with h2 | ⟨_, h2⟩ <;> cases h2
+  | env t' ha hev' hsubj hths => rw [hev'] at hev; cases hev
+
+/-- a segment sees a cancelled context only if a `cancel` action for its thread happened after the
+    invocation of the operation it belongs to -/
+theorem Reach'.cancel_before {sub : Subject σ Op} {i : σ} {programs : List (List Op)} {s : Sys σ Op}
+    {l1 l2 : List (Ev σ Op)} {t pc : Nat} {op : Op} {first : Bool} {pre : σ} {out : SegOut σ}
+    (h : Reach' sub (initSys i programs) (l1 ++ Ev.seg t pc op first true pre out :: l2) s) :
+    first = false ∧ ∃ l1a l1b, l1 = l1a ++ [Ev.env (.cancel t)] ++ l1b ∧ ∀ ev ∈ l1b, ¬ ev.isStartOf t := by
+  obtain ⟨s1, a, s2, obs, hr, hen, hs, hev⟩ := h.split
+  have hI := hr.rinv
+  obtain ⟨-, -, hinfo⟩ := step_info hI.parkedOK hen hs
+  cases hinfo with
+  | seg t' th th' op' first' o ha hth hop hst ho hev' hsubj hth' hops hcanc hfin hoth =>
+    rw [hev'] at hev
+    simp only [Ev.seg.injEq] at hev
+    obtain ⟨rfl, rfl, rfl, rfl, hc, rfl, rfl⟩ := hev
+    cases first with
+    | true => simp at hc
+    | false =>
+      simp only [Bool.false_eq_true, if_false] at hc
+      exact ⟨rfl, hI.cancelled t th hth hc.symm⟩
+  | env t' ha hev' hsubj hths => rw [hev'] at hev; cases hev
+
 /-! ### an executable way to build runs (used by the non-vacuity examples) -/
 
 theorem Reach'.trans {sub : Subject σ Op} {s0 s1 s2 : Sys σ Op} {l1 l2 : List (Ev σ Op)}
@@ -846,6 +979,64 @@ theorem runActs_reach {sub : Subject σ Op} {acts : List Act} : ∀ {s s' : Sys 
           exact Reach'.trans h1 (ih hr)
     · simp [hen] at h
 
+
+/-! ### what the driver executes is covered -/
+
+theorem enabled_false_sub {s : Sys σ Op} {a : Act} (h : a ∈ enabled s false) : a ∈ enabled s true := by
+  simp only [enabled, List.mem_append] at h ⊢
+  rcases h with ((h | h) | h) | h
+  · exact Or.inl (Or.inl (Or.inl h))
+  · exact Or.inl (Or.inl (Or.inr h))
+  · simp at h
+  · exact Or.inr h
+
+theorem runChoices_reach {sub : Subject σ Op} {s0 : Sys σ Op} (choices : List Nat) :
+    ∀ (s : Sys σ Op) (l : List String), (∃ log, Reach' sub s0 log s) →
+      ∃ log, Reach' sub s0 log (runChoices sub s choices l).1 := by
+  induction choices with
+  | nil => intro s l h; exact h
+  | cons c rest ih =>
+    intro s l h
+    simp only [runChoices]
+    split
+    · exact h
+    · split
+      · exact h
+      · rename_i a ha
+        split
+        · exact h
+        · rename_i s' obs hs
+          obtain ⟨log, hr⟩ := h
+          exact ih s' _ ⟨_, Reach'.step hr (List.mem_of_getElem? ha) hs⟩
+
+theorem drain_reach {sub : Subject σ Op} {s0 : Sys σ Op} (fuel : Nat) :
+    ∀ (s : Sys σ Op) (l : List String), (∃ log, Reach' sub s0 log s) →
+      ∃ log, Reach' sub s0 log (drain sub s fuel l).1 := by
+  induction fuel with
+  | zero => intro s l h; exact h
+  | succ n ih =>
+    intro s l h
+    simp only [drain]
+    split
+    · exact h
+    · rename_i a rest hen
+      split
+      · exact h
+      · rename_i s' obs hs
+        obtain ⟨log, hr⟩ := h
+        have hmem : a ∈ enabled s true := enabled_false_sub (by rw [hen]; exact List.mem_cons_self)
+        exact ih s' _ ⟨_, Reach'.step hr hmem hs⟩
+
+/-- the system `runCase` ends in (its observation string is computed from this system and the per-action
+    observations) -/
+def runCaseSys (sub : Subject σ Op) (init : σ) (programs : List (List Op)) (choices : List Nat) : Sys σ Op :=
+  (drain sub (runChoices sub (initSys init programs) choices []).1 200
+    (runChoices sub (initSys init programs) choices []).2).1
+
+/-- every case the driver runs (choice list, then the fixed drain policy) is a `Reach'` run -/
+theorem runCase_reach (sub : Subject σ Op) (init : σ) (programs : List (List Op)) (choices : List Nat) :
+    ∃ log, Reach' sub (initSys init programs) log (runCaseSys sub init programs choices) :=
+  drain_reach 200 _ _ (runChoices_reach choices _ _ ⟨[], Reach'.init⟩)
 
 /-- a Boolean check of the outcome of `runActs` yields a run with that property -/
 theorem runActs_witness {sub : Subject σ Op} {s : Sys σ Op} {acts : List Act} (chk : Sys σ Op → List (Ev σ Op) → Bool)
